@@ -1,6 +1,6 @@
 #!/bin/bash
 # usage: tools_seed.sh <patch.diff> <check args...> : apply a seeded patch to /repo, run the check, undo
 p=$1; shift
-cd /repo && git apply "$p" || { echo "PATCH DID NOT APPLY"; exit 2; }
+cd /repo && { git apply "$p" 2>/dev/null || patch -p1 -F3 -s --no-backup-if-mismatch < "$p"; } || { echo "PATCH DID NOT APPLY"; git checkout -- .; exit 2; }
 (cd /verif && timeout 900 ./check "$@" 2>&1 | grep -v conda | cut -c1-260 > /var/tmp/seed_run.$$; head -1 /var/tmp/seed_run.$$; grep -E "^(VIOLATION|KNOWN)" /var/tmp/seed_run.$$ | head -6; grep -vE "^(VIOLATION|KNOWN|  cross-check|  locked)" /var/tmp/seed_run.$$ | tail -n +2 | head -${MUT_LINES:-5}; rm -f /var/tmp/seed_run.$$)
 cd /repo && git checkout -- . && git status --short | head -3
